@@ -350,6 +350,11 @@ func getLocalAddresses(c diam.Conn) ([]datatype.Address, error) {
 	hostIPs := strings.Split(addr, "/")
 	addresses := make([]datatype.Address, 0, len(hostIPs))
 	for _, ipStr := range hostIPs {
+		// An IPv6 literal in host:port form is bracketed and may carry a zone.
+		ipStr = strings.TrimSuffix(strings.TrimPrefix(ipStr, "["), "]")
+		if i := strings.IndexByte(ipStr, '%'); i >= 0 {
+			ipStr = ipStr[:i]
+		}
 		ip := net.ParseIP(ipStr)
 		if ip != nil {
 			if ip.IsLoopback() {
